@@ -111,7 +111,102 @@ example : consRows 0 [.cons 0, .psd 1 2, .cons 2, .psd 3 1, .cons 4] = [0, 5, 7]
     mspec (fun r => 100 + r) (fun b => 200 + b) 0 1 [.cons 0, .psd 1 2, .cons 2, .psd 3 1, .cons 4]
       = [100, 201, 105, 202, 107] := by decide
 
+/-! ## the objective of the dimension-reduction heuristic -/
+
+/-- the matrix `W` as the wrapper receives it (rows of a square array) -/
+def rowsOfFn (n : Nat) (W : Nat → Nat → Coef) : List (List Coef) :=
+  (List.range n).map (fun i => (List.range n).map (fun j => W i j))
+
+theorem rowsOfFn_get (n : Nat) (W : Nat → Nat → Coef) (i j : Nat) (hi : i < n) (hj : j < n) :
+    ((rowsOfFn n W).getD i []).getD j 0 = W i j := by
+  simp [rowsOfFn, List.getD, hi, hj]
+
+/-- one entry of the lower triangle as the wrapper emits it: nothing for a zero -/
+def tripOpt (i : Nat) (f : Nat → Coef) (j : Nat) : Option Trip := if f j == 0 then Option.none else some ⟨i, j, f j⟩
+
+/-- dropping the zero entries changes nothing in the value -/
+theorem sum_filterMap_trips (G : Nat → Nat → ℝ) (i : Nat) (f : Nat → Coef) (l : List Nat) :
+    ((l.filterMap (tripOpt i f)).map (tripVal G)).sum = (l.map (fun j => ((f j : ℚ) : ℝ) * symv G i j)).sum := by
+  induction l with
+  | nil => simp
+  | cons j rest ih =>
+    by_cases h : f j = 0
+    · have hn : tripOpt i f j = Option.none := by simp [tripOpt, h]
+      rw [List.filterMap_cons_none hn, ih, List.map_cons, List.sum_cons, h]; simp
+    · have hs : tripOpt i f j = some ⟨i, j, f j⟩ := by simp [tripOpt, h]
+      rw [List.filterMap_cons_some hs, List.map_cons, List.sum_cons, ih, List.map_cons, List.sum_cons]; rfl
+
+theorem list_range_sum' (n : Nat) (f : Nat → ℝ) : ((List.range n).map f).sum = ∑ i ∈ Finset.range n, f i := by
+  induction n with
+  | zero => simp
+  | succ n ih => rw [List.range_succ, List.map_append, List.sum_append, ih, Finset.sum_range_succ]; simp
+
+/-- value of the lower-triangular encoding, row by row -/
+theorem heuristic_rows (n : Nat) (W : Nat → Nat → Coef) (G : Nat → Nat → ℝ) :
+    ((mosekHeuristic (rowsOfFn n W)).map (tripVal G)).sum
+      = ∑ i ∈ Finset.range n, ∑ j ∈ Finset.range (i + 1), ((W i j : ℚ) : ℝ) * symv G i j := by
+  unfold mosekHeuristic
+  have hlen : (rowsOfFn n W).length = n := by simp [rowsOfFn]
+  rw [hlen, List.map_flatMap, List.flatMap_def, List.sum_flatten, List.map_map, list_range_sum']
+  apply Finset.sum_congr rfl
+  intro i hi
+  have hi' : i < n := Finset.mem_range.mp hi
+  simp only [Function.comp]
+  have hrow : ∀ j ∈ List.range (i + 1), ((rowsOfFn n W).getD i []).getD j 0 = W i j := by
+    intro j hj
+    exact rowsOfFn_get n W i j hi' (lt_of_lt_of_le (List.mem_range.mp hj) hi')
+  have hfm : List.filterMap (fun j => (let v := ((rowsOfFn n W).getD i []).getD j 0; if v == 0 then Option.none else some (⟨i, j, v⟩ : Trip))) (List.range (i + 1))
+      = List.filterMap (tripOpt i (fun j => W i j)) (List.range (i + 1)) := by
+    apply List.filterMap_congr
+    intro j hj
+    simp only [hrow j hj, tripOpt]
+  rw [hfm, sum_filterMap_trips G i (fun j => W i j), list_range_sum']
+
+/-- the full inner product `⟨W, G⟩ = Σ_{i,j<n} W i j · G i j` as a sum over the triangle, for symmetric `W` -/
+theorem triangle_sum (W : Nat → Nat → ℝ) (G : Nat → Nat → ℝ) (hW : ∀ i j, W i j = W j i) :
+    ∀ n, (∑ i ∈ Finset.range n, ∑ j ∈ Finset.range (i + 1), W i j * symv G i j)
+      = ∑ i ∈ Finset.range n, ∑ j ∈ Finset.range n, W i j * G i j := by
+  intro n
+  induction n with
+  | zero => simp
+  | succ n ih =>
+    rw [Finset.sum_range_succ, ih, Finset.sum_range_succ (fun i => ∑ j ∈ Finset.range (n + 1), W i j * G i j)]
+    -- the new row of the triangle: entries left of the diagonal count twice, the diagonal once
+    have hrow : ∑ j ∈ Finset.range (n + 1), W n j * symv G n j
+        = (∑ j ∈ Finset.range n, W n j * G n j) + (∑ j ∈ Finset.range n, W j n * G j n) + W n n * G n n := by
+      rw [Finset.sum_range_succ]
+      have : ∀ j ∈ Finset.range n, W n j * symv G n j = W n j * G n j + W j n * G j n := by
+        intro j hj
+        have hne : n ≠ j := (Nat.ne_of_gt (Finset.mem_range.mp hj))
+        simp only [symv, hne, if_false]
+        rw [hW j n]; ring
+      rw [Finset.sum_congr rfl this, Finset.sum_add_distrib]
+      simp [symv]
+    have hsq : ∑ i ∈ Finset.range n, ∑ j ∈ Finset.range (n + 1), W i j * G i j
+        = (∑ i ∈ Finset.range n, ∑ j ∈ Finset.range n, W i j * G i j) + ∑ i ∈ Finset.range n, W i n * G i n := by
+      rw [← Finset.sum_add_distrib]
+      apply Finset.sum_congr rfl
+      intro i _
+      rw [Finset.sum_range_succ]
+    rw [hrow, hsq, Finset.sum_range_succ (fun j => W n j * G n j)]
+    ring
+
+/-- **both back-ends minimise the same heuristic objective**: the lower triangle of `W` handed to MOSEK
+(`appendsparsesymmat`, read symmetrically) denotes `⟨W, G⟩ = Σ W i j · G i j`, what the cvxpy wrapper writes as
+`trace(W @ G)`, for every symmetric weight matrix `W` — the dimension-reduction heuristics replace the objective by the same
+function of the Gram matrix in both wrappers (`dump.heur` ties `mosekHeuristic` to the real `MosekWrapper.heuristic`) -/
+theorem heuristic_objective_same (n : Nat) (W : Nat → Nat → Coef) (hW : ∀ i j, W i j = W j i) (G : Nat → Nat → ℝ) :
+    ((mosekHeuristic (rowsOfFn n W)).map (tripVal G)).sum
+      = ∑ i ∈ Finset.range n, ∑ j ∈ Finset.range n, ((W i j : ℚ) : ℝ) * G i j := by
+  rw [heuristic_rows]
+  exact triangle_sum (fun i j => ((W i j : ℚ) : ℝ)) G (fun i j => by simp [hW i j]) n
+
+/-- non-vacuity: a symmetric 2 × 2 weight with a zero entry -/
+example : mosekHeuristic (rowsOfFn 2 (fun i j => if i = j then 3 else 0)) = [⟨0, 0, 3⟩, ⟨1, 1, 3⟩] := by decide +kernel
+
 end Pepit.C11
+
+#print axioms Pepit.C11.heuristic_objective_same
 
 #print axioms Pepit.C11.backends_same_constraint
 #print axioms Pepit.C11.lmi_row_iff
